@@ -1,6 +1,6 @@
 (* Correspondence judge for C11: a case is a history of operations on one Namespace (starting empty)
    with, for every step, the observed output and the observed __dict__ tree (stored names). *)
-From JV Require Import Lib.Base Model.Ns Model.NsRun Model.NsGuard Model.C11NsFixed Spec.NestedDict Spec.NestedDictRun Gen.C11Clash.
+From JV Require Import Lib.Base Model.Ns Model.NsRun Model.NsGuard Model.C11NsFixed Model.C11FixedGuard Spec.NestedDict Spec.NestedDictRun Gen.C11Clash.
 
 (* ---- short names for the generated case files (parsing literal code-point lists dominates coqc time) ---- *)
 Definition n_a : str := [97]%N.
@@ -93,18 +93,22 @@ Definition judge1 (c : case) : verdict :=
 
 Definition judge (cs : list case) := judge_all judge1 cs.
 
-(* ---- after fixes/C11-path-through-dict.patch has been applied -------------------------------------------------
-   Set JUDGE = "judge_fixed" in tie/props/c11.py (and turn the `open:` line of known_findings/C11.txt into `fixed:`):
-   model agreement is then judged against the model of the patched code (Model/C11NsFixed.v), also on histories
-   through a dict-valued leaf. The classes are unchanged (class 1 is still the hypothesis missing from
-   ns_refines_dict), but class 1 is no longer a listed finding: a spec failure there is a violation. *)
+(* ---- the CURRENT code (fixes/C11-path-through-dict.patch applied as b856eae) ---------------------------------
+   JUDGE = "judge_fixed" in tie/props/c11.py. Model agreement is judged against the model of the patched code
+   (Model/C11NsFixed.v); v_class is hist_class_fx, the very function whose value 0 is the hypothesis of
+   Properties/C11.v:ns_refines_dict:
+     0 = inside the theorem (histories through dict-valued leaves included: there is no class 1 any more);
+     2 = ill-formed key or value (never generated: would be reported if the spec disagrees);
+     3 = history uses update(namespace) / Namespace(dict) / dict_to_namespace / == / step-by-step get, which the
+         theorem does not cover as history steps (model- and spec-agreement are still demanded of every such case).
+   `judge` above is the judge for the code before the repair and is kept for regression runs against old trees. *)
 Definition agree_model_fixed (c : case) : bool :=
   list_eqb (fun (m o : out * alist) => out_eqb (fst m) (fst o) && veq (VNs (snd m)) (VNs (snd o)))
            (run_fixed clash_names [] (c_ops c)) (c_obs c).
 
 Definition judge1_fixed (c : case) : verdict :=
   {| v_model := agree_model_fixed c;
-     v_class := hist_class clash_names (c_ops c);
+     v_class := hist_class_fx clash_names (c_ops c);
      v_spec := agree_spec c |}.
 
 Definition judge_fixed (cs : list case) := judge_all judge1_fixed cs.
